@@ -15,11 +15,25 @@ const RESP_SKIP: [&str; 3] = ["Date", "Content-Type", "Server"];
 const REQ_COMMON: [&str; 8] = ["Host", "User-Agent", "Connection", "Accept", "Accept-Encoding", "Accept-Language", "Accept-Charset", "Keep-Alive"];
 const RESP_COMMON: [&str; 5] = ["Content-Type", "Connection", "Keep-Alive", "Accept-Ranges", "Date"];
 
+/// the crate's language table, read once through two-letter probes (ISO 639-1 keys are exactly two lower-case letters);
+/// any other primary subtag (three-letter codes such as `fil`, upper case, `*`) is unknown
+fn lang_table() -> &'static std::collections::HashMap<String, String> {
+    static T: std::sync::OnceLock<std::collections::HashMap<String, String>> = std::sync::OnceLock::new();
+    T.get_or_init(|| {
+        let mut m = std::collections::HashMap::new();
+        for a in b'a'..=b'z' {
+            for b in b'a'..=b'z' {
+                let k = format!("{}{}", a as char, b as char);
+                if let Some(name) = huginn_net_http::http_languages::get_highest_quality_language(k.clone()) {
+                    m.insert(k, name);
+                }
+            }
+        }
+        m
+    })
+}
 fn lang_name(primary: &str) -> Option<String> {
-    if primary.is_empty() || primary.contains(',') || primary.contains(';') {
-        return None;
-    }
-    huginn_net_http::http_languages::get_highest_quality_language(primary.to_string())
+    lang_table().get(primary).cloned()
 }
 
 /// Some(expected language) when the Accept-Language value follows `tag[;q=number]` members; None = not judged
